@@ -39,7 +39,7 @@ Theorem C09_never_silently_altered : forall bs,
 Proof. exact never_silently_altered. Qed.
 Print Assumptions C09_never_silently_altered.
 
-(** the statement is false for the decoder before fix b517c94 (witness C1 81) *)
+(** the statement is false for the decoder before fix 0d0f6c8 (witness C1 81) *)
 Theorem C09_never_silently_altered_refuted_before_fix :
   exists bs, Forall byte bs /\
     ~ outcome_ok bs (run_file false default_enc_opts (fun x => x) bs).
